@@ -99,6 +99,7 @@ type Exec struct {
 	Outcome  string // ok | panic | deadlock | stall | horizon | exit | diverged
 	Detail   string // panic value / blocked sites / exit code
 	PanicVal any
+	PanicStack string
 	Blocked  []string // blocking sites at deadlock/stall (sorted)
 	ExitCode int
 	Diverged string
@@ -175,6 +176,7 @@ func (x *Exec) startThread(t *Thread, f func()) {
 				buf := make([]byte, 8192)
 				n := runtime.Stack(buf, false)
 				x.PanicVal = r
+				x.PanicStack = string(buf[:n])
 				x.finishLocked("panic", fmt.Sprintf("%v @ %s", normPanic(r), panicSite(string(buf[:n]))))
 				return
 			}
